@@ -2096,6 +2096,19 @@ func (a *Agent) getNominationValue() uint32 {
 // RenominateCandidate allows the controlling ICE agent to nominate a new candidate pair.
 // This implements the continuous renomination feature from draft-thatcher-ice-renomination-01.
 func (a *Agent) RenominateCandidate(local, remote Candidate) error {
+	var err error
+	if runErr := a.loop.Run(a.loop, func(context.Context) {
+		err = a.renominateCandidate(local, remote)
+	}); runErr != nil {
+		return runErr
+	}
+
+	return err
+}
+
+// renominateCandidate must run on the task loop: it reads and mutates the checklist
+// and the pending binding requests.
+func (a *Agent) renominateCandidate(local, remote Candidate) error {
 	if !a.isControlling.Load() {
 		return ErrOnlyControllingAgentCanRenominate
 	}
